@@ -378,7 +378,7 @@ class G2:
         env = {"e": True, "objs": [], "nums": []}
         steps = []
         if r.random() < 0.25:
-            steps.append(["Where", f"lambda e: {self.boolean(env, 1)}"])
+            steps.append(["Where", f"lambda e: {self.boolean(env, r.choice([1, 2, 2]))}"])
             self.uncond = False
         form = r.choice(["single", "tuple", "tuple", "dict", "dict", "rows", "rows", "list", "two_step", "two_step", "value_rows"])
         cols = None
